@@ -164,4 +164,13 @@ func init() {
 		variant{Name: "benign-quality-line-counted-through-temporaries", File: fastq, Find: qualTail,
 			Replace: "\tline = bytes.Join(bytes.Fields(line), nil)\n\tif nq, nl := len(line), len(seqBuff); nl != nq {\n\t\treturn nil, errors.New(\"fastq: sequence/quality length mismatch\")\n\t}\n"},
 	)
+	// round 25
+	const stitchClip = "\t\tfs, fe := max(f.s-offset, 0), min(f.e-offset, pLen)\n\t\tif fs >= fe {\n\t\t\tcontinue\n\t\t}\n\t\tt = t.Append(sl.Slice(fs, fe))\n"
+	add("C06",
+		variant{Name: "stitch-slices-a-span-that-clips-to-nothing", File: utils, Find: stitchClip,
+			Replace: "\t\tt = t.Append(sl.Slice(max(f.s-offset, 0), min(f.e-offset, pLen)))\n",
+			Rule:    "clipordered", Key: "sequtils.Stitch/clipped-span-sliced-only-when-not-empty"},
+		variant{Name: "benign-stitch-appends-under-the-positive-test", File: utils, Find: stitchClip,
+			Replace: "\t\tif fs, fe := max(f.s-offset, 0), min(f.e-offset, pLen); fe > fs {\n\t\t\tt = t.Append(sl.Slice(fs, fe))\n\t\t}\n"},
+	)
 }
